@@ -132,10 +132,13 @@ Section RO.
   Qed.
   Lemma ro_find_err_total s key kp rb e : ReadOnly.ro_find s key kp rb = Err e -> err_total e.
   Proof.
-    unfold ReadOnly.ro_find. cbv zeta. intros H.
+    unfold ReadOnly.ro_find. cbv zeta.
+    destruct (ReadOnly.int64_prefix (ReadOnly.ridx_getall (ReadOnly.s_idx s) kp)) as [offs bad]. intros H.
     destruct (find_cid _ _ _ _ _ _ _ _) as [[[d off] n]|e'] eqn:E.
     - destruct (n =? -1)%Z; inversion H; split; discriminate.
-    - inversion H; subst. eapply find_cid_err_total; eassumption.
+    - pose proof (find_cid_err_total _ _ _ _ _ _ _ _ _ E) as Ht.
+      destruct e'; try (inversion H; subst; exact Ht).
+      destruct bad; [destruct (ReadOnly.s_v2 s)|]; inversion H; split; discriminate.
   Qed.
   Lemma ro_get_total s key e : ReadOnly.ro_get s key = OErr e -> err_total e.
   Proof.
